@@ -4,7 +4,7 @@ use crate::{
     model::{TryFromNode, field::resolve_type},
     reader::WriteXml,
 };
-use inflector::cases::snakecase::to_snake_case;
+use inflector::cases::{pascalcase::to_pascal_case, snakecase::to_snake_case};
 use reqwest::Url;
 use std::{io, rc::Rc};
 
@@ -98,11 +98,13 @@ where
 {
     // generate an async fn for the operation
     let rust_fn_name = to_snake_case(operation_name);
-    let request_name = format!("{operation_name}InputEnvelope");
+    // the envelope structs are named after the PascalCase operation name (see the binding writer)
+    let envelope_prefix = to_pascal_case(operation_name);
+    let request_name = format!("{envelope_prefix}InputEnvelope");
     let response_name = operation
         .output
         .as_ref()
-        .map(|_| format!("{operation_name}OutputEnvelope"));
+        .map(|_| format!("{envelope_prefix}OutputEnvelope"));
 
     if let Some(res_name) = response_name {
         writeln!(
